@@ -566,7 +566,10 @@ func (sc *serverConn) writeFrame(wm frameWriteMsg) bool {
 	// process special frame
 	switch wm.frame.(type) {
 	case *PanicFrame:
-		sc.closeStream(wm.stream, errHandlerPanic)
+		// The stream may be closed already (RST_STREAM from the client, stream error).
+		if wm.stream.state != stateClosed {
+			sc.closeStream(wm.stream, errHandlerPanic)
+		}
 		return true
 	case *FinFrame:
 		return false
